@@ -13,10 +13,12 @@ order, as long as their offset is below the truncation offset; the first one at 
 `Truncated` (the empty copy), one `WriteMessageSet(ms, [entry])` per message below the offset, `Replace(seg)`, the switch of the
 active segment to the copy, `ClearLatest(offset)` on the epoch cache; the log's segment list afterwards is `pre` followed by the
 copy; the call returns what `ClearLatest` returns. `go_Truncate_nothing`: an offset beyond the end of the log changes nothing.
-`copied_writes`: the messages written are the longest prefix of the segment below the offset - all of those below it when
-offsets increase along the segment. The case "the offset IS the base offset of a later segment" (that segment is deleted as
-well, nothing is copied) and failing file-system calls stay with the model and the correspondence runs; the fuel is
-`segments + messages + 14` because three-clause loops consume fuel per iteration.
+`go_Truncate_first`: the same when the offset lies anywhere in the FIRST segment, its base offset included (the first segment is never
+deleted). `go_Truncate_drop`: the offset is the base offset of a later segment: that segment is deleted with everything behind it,
+nothing is copied, the segment in front of it becomes the active one and the log ends with it. The three theorems cover every
+case the code distinguishes. `copied_writes`: the messages written are the longest prefix of the segment below the offset - all of
+those below it when offsets increase along the segment. Failing file-system calls stay with the model and the correspondence
+runs; the fuel is `segments + messages + 14` because three-clause loops consume fuel per iteration.
 -/
 import Liftbridge.Proofs.GoCodeBase
 import Liftbridge.Gen.GoTruncate
@@ -375,6 +377,177 @@ theorem go_Truncate_replace (pre : List Int) (b : Int) (post : List Int) (msgs :
   simp [runG, fn_commitLog_Truncate, gomini, -exec_forC, exec_forC_some, trView, encL, lookup, getField, truthy, builtin, binInt, assignAll, assignTo, truncExt, encS,
     a1, a2, a3, b1, b2, b3, b4, hb, lenOf, hmk1, hmk2, c1, c2, c3, d1, d2, d3, d4, d5, hsc0, hscan0, e1, e2, f1, f2, f3, f4, f5, f6]
   simp [replaceTrace, isTr, newSegV, List.filter_append, List.filter_replicate, encS]
+
+set_option maxRecDepth 16000 in
+set_option maxHeartbeats 8000000 in
+/-- the offset lies in the FIRST segment - anywhere in it, its base offset included: the first segment is never deleted, it is replaced
+by its truncated copy (an empty one when the offset is its base offset and offsets increase) -/
+theorem go_Truncate_first (pre : List Int) (b : Int) (post : List Int) (msgs : List Int) (offset : Int)
+    (hp : pre = []) :
+    trView (runG prog (truncExt (.tup [encS b, .int pre.length]) msgs) ((pre ++ b :: post).length + msgs.length + 14) "Truncate"
+        (some (encL (pre ++ b :: post))) [.int offset] []) =
+      some ([.nil], replaceTrace post b offset msgs, some (.list (pre.map encS ++ [newSegV]))) := by
+  have hpT : (pre = []) = True := eq_true hp
+  simp only [List.length_append, List.length_cons]
+  let x : Ext := truncExt (.tup [encS b, .int pre.length]) msgs
+  let segsV : Val := .list (List.map encS pre ++ encS b :: List.map encS post)
+  let lV : Val := .struct [("segments", segsV), ("leaderEpochCache", .struct [("kind", .str "epochs")])]
+  let st0 : St := ((((({ env := envOf [("l", lV), ("offset", .int offset)], eff := [] } : St).log "findSegment" [segsV, .int offset]).set "seg" (encS b)).set
+      "idx" (.int pre.length)).set "deleted" (.int 0)).set "i" (.int ((pre.length : Int) + 1))
+  obtain ⟨st1, a1, a2, a3, a4⟩ := del_loop (pre.length + (post.length + 1) + msgs.length + 3) x (delOk_truncExt _ _) (pre ++ b :: post)
+    post.length (pre.length + 1) (pre.length + (post.length + 1) + msgs.length + 13) st0 0 (by simp; omega) (by omega)
+    (by simp [st0, gomini]) (by simp [st0, gomini, St.log, envOf, lookup, lV, segsV, encL]) (by simp [st0, gomini])
+  have b1 := a4 "seg" (by decide) (by decide) (by decide)
+  have b2 := a4 "idx" (by decide) (by decide) (by decide)
+  have b3 := a4 "offset" (by decide) (by decide) (by decide)
+  have b4 := a4 "l" (by decide) (by decide) (by decide)
+  have b2' := b2
+  have b4' := b4
+  have a3' := a3
+  have hmk1 : ¬ ((pre.length : Int) + ((post.length : Int) + 1) - (post.length : Int) < 0) := by omega
+  have hmk2 : ((pre.length : Int) + ((post.length : Int) + 1)).toNat - post.length = pre.length + 1 := by omega
+  let st2 : St := (((st1.set "replace" (.bool false)).set "replace" (.bool true)).set "segments" (.list (List.replicate (pre.length + 1) .nil))).set "i" (.int 0)
+  obtain ⟨st3, c1, c2, c3, c4⟩ := copy_loop (pre.length + (post.length + 1) + msgs.length + 3) x (pre ++ b :: post) pre.length (pre.length + 1)
+    (by simp) (by omega) pre.length 0 (pre.length + (post.length + 1) + msgs.length + 13) st2 (by omega) (by omega)
+    (by simp [st2, gomini]) (by simp [st2, gomini, b2', st0]) (by simp [st2, gomini, b4', st0, lV, segsV, encL, St.log, envOf, lookup])
+    (by simp [st2, gomini])
+  have c3' := c3
+  have d1 := c4 "seg" (by decide) (by decide)
+  have d2 := c4 "idx" (by decide) (by decide)
+  have d3 := c4 "offset" (by decide) (by decide)
+  have d4 := c4 "l" (by decide) (by decide)
+  have d5 := c4 "replace" (by decide) (by decide)
+  try simp [x, st0, lV, segsV, delCond, delBody, delPost, gomini, envOf, lookup, encS] at a1
+  try simp [x, st0, lV, segsV, delCond, delBody, delPost, gomini, envOf, lookup, encS] at a2
+  try simp [x, st0, lV, segsV, delCond, delBody, delPost, gomini, envOf, lookup, encS] at a3
+  try simp [x, st0, lV, segsV, delCond, delBody, delPost, gomini, envOf, lookup, encS] at b1
+  try simp [x, st0, lV, segsV, delCond, delBody, delPost, gomini, envOf, lookup, encS] at b2
+  try simp [x, st0, lV, segsV, delCond, delBody, delPost, gomini, envOf, lookup, encS] at b3
+  try simp [x, st0, lV, segsV, delCond, delBody, delPost, gomini, envOf, lookup, encS] at b4
+  try simp [x, st2, cpCond, cpBody, delPost, gomini, encS, b1, b2, b3, b4] at c1
+  try simp [x, st2, cpCond, cpBody, delPost, gomini, encS, b1, b2, b3, b4] at c2
+  try simp [x, st2, cpCond, cpBody, delPost, gomini, encS, b1, b2, b3, b4] at c3
+  try simp [x, st2, cpCond, cpBody, delPost, gomini, encS, b1, b2, b3, b4] at d1
+  try simp [x, st2, cpCond, cpBody, delPost, gomini, encS, b1, b2, b3, b4] at d2
+  try simp [x, st2, cpCond, cpBody, delPost, gomini, encS, b1, b2, b3, b4] at d3
+  try simp [x, st2, cpCond, cpBody, delPost, gomini, encS, b1, b2, b3, b4] at d4
+  try simp [x, st2, cpCond, cpBody, delPost, gomini, encS, b1, b2, b3, b4] at d5
+  have hst3 : scans st3.eff = 0 := by
+    rw [c3']; simp [st2, gomini, a3', st0, scans, List.filter_append, List.filter_replicate]
+  let stS : St := (((((st3.log "newSegmentScanner" [encS b]).set "ss" (.struct [("kind", .str "scanner")])).log "Truncated" []).set "newSegment" newSegV).set "err" .nil).log "Scan" []
+  let st4 : St := ((stS.set "ms" (hMs msgs)).set "e" (hE msgs)).set "err·1" (hErr msgs)
+  obtain ⟨st5, e1, e2, e3⟩ := scan_loop (pre.length + (post.length + 1) + msgs.length) (.tup [encS b, .int pre.length]) msgs offset msgs [] 
+    (pre.length + (post.length + 1) + msgs.length + 12) st4 (by simp) (by omega)
+    (by
+      have he : st4.eff = st3.eff ++ [("newSegmentScanner", [encS b]), ("Truncated", []), ("Scan", [])] := by simp [st4, stS, gomini]
+      rw [he, scans_append, hst3]; simp [scans])
+    ⟨by simp [st4, gomini], by simp [st4, gomini], by simp [st4, gomini], by simp [st4, stS, gomini, d3, st2, b3, st0, envOf, lookup],
+     by simp [st4, stS, gomini, newSegV], by simp [st4, stS, gomini]⟩
+  have f1 := e3 "seg" (by decide) (by decide) (by decide) (by decide)
+  have f2 := e3 "idx" (by decide) (by decide) (by decide) (by decide)
+  have f3 := e3 "offset" (by decide) (by decide) (by decide) (by decide)
+  have f4 := e3 "l" (by decide) (by decide) (by decide) (by decide)
+  have f5 := e3 "segments" (by decide) (by decide) (by decide) (by decide)
+  have f6 := e3 "newSegment" (by decide) (by decide) (by decide) (by decide)
+  have hsc0 : scans (("findSegment", [Val.list (List.map encS pre ++ Val.struct [("BaseOffset", Val.int b)] :: List.map encS post), Val.int offset]) ::
+      (List.replicate post.length ("Delete", []) ++ [("newSegmentScanner", [Val.struct [("BaseOffset", Val.int b)]]), ("Truncated", [])])) = 0 := by
+    simp [scans, List.filter_append, List.filter_replicate]
+  try simp [x, st0, lV, segsV, delCond, delBody, delPost, gomini, envOf, lookup, encS] at a1
+  try simp [x, st0, lV, segsV, delCond, delBody, delPost, gomini, envOf, lookup, encS] at a2
+  try simp [x, st0, lV, segsV, delCond, delBody, delPost, gomini, envOf, lookup, encS] at a3
+  try simp [x, st0, lV, segsV, delCond, delBody, delPost, gomini, envOf, lookup, encS] at b1
+  try simp [x, st0, lV, segsV, delCond, delBody, delPost, gomini, envOf, lookup, encS] at b2
+  try simp [x, st0, lV, segsV, delCond, delBody, delPost, gomini, envOf, lookup, encS] at b3
+  try simp [x, st0, lV, segsV, delCond, delBody, delPost, gomini, envOf, lookup, encS] at b4
+  try simp [x, st2, cpCond, cpBody, delPost, gomini, encS, b1, b2, b3, b4] at c1
+  try simp [x, st2, cpCond, cpBody, delPost, gomini, encS, b1, b2, b3, b4] at c2
+  try simp [x, st2, cpCond, cpBody, delPost, gomini, encS, b1, b2, b3, b4] at c3
+  try simp [x, st2, cpCond, cpBody, delPost, gomini, encS, b1, b2, b3, b4] at d1
+  try simp [x, st2, cpCond, cpBody, delPost, gomini, encS, b1, b2, b3, b4] at d2
+  try simp [x, st2, cpCond, cpBody, delPost, gomini, encS, b1, b2, b3, b4] at d3
+  try simp [x, st2, cpCond, cpBody, delPost, gomini, encS, b1, b2, b3, b4] at d4
+  try simp [x, st2, cpCond, cpBody, delPost, gomini, encS, b1, b2, b3, b4] at d5
+  try simp [x, st4, stS, scCond, scBody, scPost, gomini, encS, newSegV] at e1
+  try simp [st4, stS, gomini, encS, c3, a3] at e2
+  try simp [st4, stS, gomini, encS, newSegV, d1, d2, d3, d4, d5, c2] at f1
+  try simp [st4, stS, gomini, encS, newSegV, d1, d2, d3, d4, d5, c2] at f2
+  try simp [st4, stS, gomini, encS, newSegV, d1, d2, d3, d4, d5, c2] at f3
+  try simp [st4, stS, gomini, encS, newSegV, d1, d2, d3, d4, d5, c2] at f4
+  try simp [st4, stS, gomini, encS, newSegV, d1, d2, d3, d4, d5, c2] at f5
+  try simp [st4, stS, gomini, encS, newSegV, d1, d2, d3, d4, d5, c2] at f6
+  have hscan0 : (match msgs[0]? with
+      | some o => some (Val.tup [encMs o, encE o, Val.nil])
+      | none => some (Val.tup [Val.nil, Val.nil, Val.str "EOF"])) = some (Val.tup [hMs msgs, hE msgs, hErr msgs]) := by
+    cases msgs <;> simp [hMs, hE, hErr]
+  simp [runG, fn_commitLog_Truncate, gomini, -exec_forC, exec_forC_some, trView, encL, lookup, getField, truthy, builtin, binInt, assignAll, assignTo, truncExt, encS,
+    a1, a2, a3, b1, b2, b3, b4, hpT, lenOf, hmk1, hmk2, c1, c2, c3, d1, d2, d3, d4, d5, hsc0, hscan0, e1, e2, f1, f2, f3, f4, f5, f6]
+  simp [replaceTrace, isTr, newSegV, List.filter_append, List.filter_replicate, encS]
+
+
+/-- the calls of `Truncate` when the offset is the base offset of a segment that is not the first: that segment goes too -/
+def dropTrace (pl : Int) (post : List Int) (offset : Int) : List (String × List Val) :=
+  List.replicate (post.length + 1) ("Delete", []) ++
+    [("atomic.StorePointer", [.str "l.vActiveSegment", encS pl]), ("ClearLatest", [.int offset])]
+
+set_option maxRecDepth 16000 in
+set_option maxHeartbeats 8000000 in
+/-- the offset is the base offset of a segment that is not the first (`init ++ [pl]` lie in front of it): that segment and every
+later one are deleted, nothing is copied, the log ends with `pl`, which becomes the active segment -/
+theorem go_Truncate_drop (init : List Int) (pl b : Int) (post : List Int) (msgs : List Int) :
+    trView (runG prog (truncExt (.tup [encS b, .int (init ++ [pl]).length]) msgs) (((init ++ [pl]) ++ b :: post).length + msgs.length + 14) "Truncate"
+        (some (encL ((init ++ [pl]) ++ b :: post))) [.int b] []) =
+      some ([.nil], dropTrace pl post b, some (.list ((init ++ [pl]).map encS))) := by
+  generalize hpre : init ++ [pl] = pre
+  have hne : pre ≠ [] := by rw [← hpre]; simp
+  have hlastP : pre.getLast? = some pl := by rw [← hpre]; simp
+  simp only [List.length_append, List.length_cons]
+  let x : Ext := truncExt (.tup [encS b, .int pre.length]) msgs
+  let segsV : Val := .list (List.map encS pre ++ encS b :: List.map encS post)
+  let lV : Val := .struct [("segments", segsV), ("leaderEpochCache", .struct [("kind", .str "epochs")])]
+  let st0 : St := ((((({ env := envOf [("l", lV), ("offset", .int b)], eff := [] } : St).log "findSegment" [segsV, .int b]).set "seg" (encS b)).set
+      "idx" (.int pre.length)).set "deleted" (.int 0)).set "i" (.int ((pre.length : Int) + 1))
+  obtain ⟨st1, a1, a2, a3, a4⟩ := del_loop (pre.length + (post.length + 1) + msgs.length + 3) x (delOk_truncExt _ _) (pre ++ b :: post)
+    post.length (pre.length + 1) (pre.length + (post.length + 1) + msgs.length + 13) st0 0 (by simp; omega) (by omega)
+    (by simp [st0, gomini]) (by simp [st0, gomini, St.log, envOf, lookup, lV, segsV, encL]) (by simp [st0, gomini])
+  have b1 := a4 "seg" (by decide) (by decide) (by decide)
+  have b2 := a4 "idx" (by decide) (by decide) (by decide)
+  have b3 := a4 "offset" (by decide) (by decide) (by decide)
+  have b4 := a4 "l" (by decide) (by decide) (by decide)
+  have b2' := b2
+  have b4' := b4
+  have hne0 : ¬ ((pre.length : Int) = 0) := by
+    intro h; apply hne; exact List.eq_nil_of_length_eq_zero (by omega)
+  have hmk1 : ¬ ((pre.length : Int) + ((post.length : Int) + 1) - ((post.length : Int) + 1) < 0) := by omega
+  have hmk2 : ((pre.length : Int) + ((post.length : Int) + 1)).toNat - (post.length + 1) = pre.length := by omega
+  let st2 : St := ((((((st1.set "replace" (.bool false)).log "Delete" []).set "err" .nil).set "deleted" (.int ((post.length : Int) + 1))).set "segments"
+      (.list (List.replicate pre.length .nil))).set "i" (.int 0))
+  obtain ⟨st3, c1, c2, c3, c4⟩ := copy_loop (pre.length + (post.length + 1) + msgs.length + 3) x (pre ++ b :: post) pre.length pre.length
+    (by simp) (by omega) pre.length 0 (pre.length + (post.length + 1) + msgs.length + 13) st2 (by omega) (by omega)
+    (by simp [st2, gomini]) (by simp [st2, gomini, b2', st0]) (by simp [st2, gomini, b4', st0, lV, segsV, encL, St.log, envOf, lookup])
+    (by simp [st2, gomini])
+  have d3 := c4 "offset" (by decide) (by decide)
+  have d4 := c4 "l" (by decide) (by decide)
+  have d5 := c4 "replace" (by decide) (by decide)
+  have hlastV : pre[pre.length - 1]? = some pl := by
+    rw [← hpre]; simp
+  have hpos : 0 < pre.length := by rw [← hpre]; simp
+  have hnn1 : ¬ ((pre.length : Int) - 1 < 0) := by omega
+  try simp [x, st0, lV, segsV, delCond, delBody, delPost, gomini, envOf, lookup, encS] at a1
+  try simp [x, st0, lV, segsV, delCond, delBody, delPost, gomini, envOf, lookup, encS] at a2
+  try simp [x, st0, lV, segsV, delCond, delBody, delPost, gomini, envOf, lookup, encS] at a3
+  try simp [x, st0, lV, segsV, delCond, delBody, delPost, gomini, envOf, lookup, encS] at b1
+  try simp [x, st0, lV, segsV, delCond, delBody, delPost, gomini, envOf, lookup, encS] at b2
+  try simp [x, st0, lV, segsV, delCond, delBody, delPost, gomini, envOf, lookup, encS] at b3
+  try simp [x, st0, lV, segsV, delCond, delBody, delPost, gomini, envOf, lookup, encS] at b4
+  try simp [x, st2, cpCond, cpBody, delPost, gomini, encS, b1, b2, b3, b4] at c1
+  try simp [x, st2, cpCond, cpBody, delPost, gomini, encS, b1, b2, b3, b4] at c2
+  try simp [x, st2, cpCond, cpBody, delPost, gomini, encS, b1, b2, b3, b4, a3] at c3
+  try simp [x, st2, cpCond, cpBody, delPost, gomini, encS, b1, b2, b3, b4] at d3
+  try simp [x, st2, cpCond, cpBody, delPost, gomini, encS, b1, b2, b3, b4] at d4
+  try simp [x, st2, cpCond, cpBody, delPost, gomini, encS, b1, b2, b3, b4] at d5
+  simp [runG, fn_commitLog_Truncate, gomini, -exec_forC, exec_forC_some, trView, encL, lookup, getField, truthy, builtin, binInt, assignAll, assignTo, truncExt, encS,
+    a1, a2, a3, b1, b2, b3, b4, lenOf, hne0, hne, hmk1, hmk2, c1, c2, c3, d3, d4, d5, hlastV, hnn1, -getElem?_pos]
+  simp [dropTrace, isTr, List.filter_append, List.filter_replicate, encS, List.replicate_succ', List.append_assoc]
 
 /-- what gets written: the longest prefix of the segment's messages below the offset -/
 theorem copied_writes (offset : Int) (msgs : List Int) :
